@@ -526,7 +526,7 @@ func isConstantExpression(exp ast.Expression) bool {
 }
 
 func isLiteralExpression(exp ast.Expression) bool {
-	switch exp.(type) {
+	switch t := exp.(type) {
 	case *ast.Float:
 		return true
 	case *ast.Integer:
@@ -535,6 +535,14 @@ func isLiteralExpression(exp ast.Expression) bool {
 		return true
 	case *ast.RTime:
 		return true
+	case *ast.PrefixExpression:
+		// A signed numeric literal like -1.5 is still a literal (the interpreter treats it so)
+		if t.Operator == "-" || t.Operator == "+" {
+			switch t.Right.(type) {
+			case *ast.Float, *ast.Integer, *ast.RTime:
+				return true
+			}
+		}
 	}
 	return false
 }
